@@ -509,4 +509,6 @@ def oracle(case, items):
     return walk(case.elt, m["B"], m["ops"], items, STATS)
 
 def extra_coverage():
-    return {"oracle_judgements": dict(STATS)}
+    d = {"det-float": 0, DET_UNJUDGED_RANGE: 0, DET_UNJUDGED_NONFINITE: 0}
+    d.update(STATS)
+    return {"oracle_judgements": d}
